@@ -241,6 +241,7 @@ def run(kind, src, nm, nc, idx):
 
 
 def shard(k):
+    sys.stderr = open(os.devnull, "w")      # a failing analysis prints a traceback per observation: keep the leg's output small
     if MODE == "referents":
         lowlevel.set_trickery_enabled(False)
     n = 0
